@@ -359,6 +359,116 @@ pub fn in_fresh_thread<R: Send>(f: impl FnOnce() -> R + Send) -> R {
     }
 }
 
+/// A second caller thread for one run: a persistent helper that executes the
+/// closures handed to it one at a time, while the calling thread waits.  Which of
+/// the two threads makes a given library call is decided by the scenario (a bit
+/// mask), so an object can be created on one thread and used on the other, and
+/// per-thread state inside the library sees a different history on each.  The
+/// helper lives for one run only: its history is a function of the scenario.
+pub struct Helper {
+    tx: Option<std::sync::mpsc::Sender<Box<dyn FnOnce() + Send + 'static>>>,
+    handle: Option<std::thread::JoinHandle<()>>,
+}
+
+impl Helper {
+    pub fn new() -> Helper {
+        let (tx, rx) = std::sync::mpsc::channel::<Box<dyn FnOnce() + Send + 'static>>();
+        let handle = std::thread::Builder::new()
+            .stack_size(RUN_STACK)
+            .spawn(move || {
+                for job in rx {
+                    job();
+                }
+            })
+            .expect("SIM-HARNESS: cannot spawn the helper thread");
+        Helper {
+            tx: Some(tx),
+            handle: Some(handle),
+        }
+    }
+
+    /// Run `f` on the helper thread and wait for it.  A panic in `f` is carried
+    /// over to the caller, with its recorded location.
+    ///
+    /// No `Send` bound: the two threads never run at the same time (the caller is
+    /// parked until the job is done), so every value is only ever touched by one
+    /// thread at a time.  Callers enable the helper only when the library types
+    /// that cross are `Send + Sync` themselves (`is_send_sync!`), i.e. when a user
+    /// could have moved them too.
+    pub fn call<'a, T: 'a>(&self, f: impl FnOnce() -> T + 'a) -> T {
+        struct Carry<X>(X);
+        // SAFETY: see above - strictly alternating execution.
+        unsafe impl<X> Send for Carry<X> {}
+        impl<X> Carry<X> {
+            fn into_inner(self) -> X {
+                self.0
+            }
+        }
+        type Panicked = (Box<dyn std::any::Any + Send>, Option<(String, String)>);
+        let (rtx, rrx) = std::sync::mpsc::channel::<Carry<Result<T, Panicked>>>();
+        let f = Carry(f);
+        let job: Box<dyn FnOnce() + Send + 'a> = Box::new(move || {
+            let f = f.into_inner();
+            let r = catch_unwind(AssertUnwindSafe(f)).map_err(|payload| (payload, LAST_PANIC.with(|p| p.borrow_mut().take())));
+            let _ = rtx.send(Carry(r));
+        });
+        // SAFETY: the job borrows from the caller's frame ('a).  This function does not
+        // return before the job has run to completion (a result or a panic was received)
+        // or was dropped unrun (the helper is gone: recv fails), so the borrows never
+        // outlive their owners.
+        let job: Box<dyn FnOnce() + Send + 'static> = unsafe { std::mem::transmute(job) };
+        self.tx.as_ref().expect("helper already shut down").send(job).expect("SIM-HARNESS: helper thread is gone");
+        match rrx.recv().map(Carry::into_inner) {
+            Ok(Ok(v)) => v,
+            Ok(Err((payload, last))) => {
+                LAST_PANIC.with(|p| *p.borrow_mut() = last);
+                std::panic::resume_unwind(payload)
+            }
+            Err(_) => panic!("SIM-HARNESS: helper thread died"),
+        }
+    }
+}
+
+/// `is_send_sync!(Type)`: a compile-time `bool` - whether `Type: Send + Sync` (inherent
+/// associated constants shadow trait ones when their bounds hold).
+macro_rules! is_send_sync {
+    ($t:ty) => {{
+        struct __W<T>(std::marker::PhantomData<T>);
+        #[allow(dead_code)]
+        trait __No {
+            const V: bool = false;
+        }
+        impl<T> __No for __W<T> {}
+        #[allow(dead_code)]
+        impl<T: Send + Sync> __W<T> {
+            const V: bool = true;
+        }
+        <__W<$t>>::V
+    }};
+}
+pub(crate) use is_send_sync;
+
+impl Drop for Helper {
+    fn drop(&mut self) {
+        self.tx.take();
+        if let Some(h) = self.handle.take() {
+            let _ = h.join();
+        }
+    }
+}
+
+/// `on_thread!(helper, mask, i, expr)`: evaluate `expr` on the helper thread when a
+/// helper exists and bit `i mod 63` of `mask` is set, on the current thread otherwise.
+macro_rules! on_thread {
+    ($helper:expr, $mask:expr, $i:expr, $e:expr) => {
+        match &$helper {
+            Some(__h) if (($mask) >> ((($i) as u64) % 63)) & 1 == 1 => __h.call(|| $e),
+            _ => $e,
+        }
+    };
+}
+pub(crate) use on_thread;
+
 /// Execute one scenario with panic isolation.
 pub fn exec_one<P: Property>(p: &P, sc: &P::Sc, trace: bool) -> RunOutput {
     let mut ctx = Ctx::new(trace);
@@ -705,6 +815,7 @@ pub fn run_batch<P: Property>(p: &P, opts: &Opts) -> BatchReport {
     let worker_died = std::sync::atomic::AtomicBool::new(false);
     // wall-clock diagnostics only (never part of a digest or a verdict)
     let slowest_ms = AtomicU64::new(0);
+    let slow_debug_ms: u64 = std::env::var("PKGSIM_SLOW_DEBUG").ok().and_then(|s| s.parse().ok()).unwrap_or(u64::MAX);
     let hang_ms: u64 = std::env::var("PKGSIM_HANG_MS").ok().and_then(|s| s.parse().ok()).unwrap_or(3000);
     std::thread::scope(|s| {
         let mut handles = Vec::new();
@@ -730,7 +841,11 @@ pub fn run_batch<P: Property>(p: &P, opts: &Opts) -> BatchReport {
                         let t_run = std::time::Instant::now();
                         let out = exec_one(p, &sc, false);
                         slot.0.store(0, Ordering::Release);
-                        slowest_ms.fetch_max(t_run.elapsed().as_millis() as u64, Ordering::Relaxed);
+                        let el = t_run.elapsed().as_millis() as u64;
+                        slowest_ms.fetch_max(el, Ordering::Relaxed);
+                        if el >= slow_debug_ms {
+                            eprintln!("SLOW run={} ms={}", run, el);
+                        }
                         record(p, &mut acc, run, 0, &sc, out);
                         if !opts.no_sweep {
                             for (i, s2) in p.sweep(&sc, run, opts.tier).into_iter().enumerate() {
